@@ -2,8 +2,11 @@
 """Reference model of port namespaces (``ref_ports``, DESIGN.md 2.5) working on plain *descriptions*, not on plumpy objects.
 
     port := ('port', required, valid_type, default, validator)     default: NODEFAULT | ('value', v) | ('callable', v)
-    ns   := ('ns', required, dyn, populate_defaults, validator, entries)      dyn: 'static' | 'dynamic' | 'dynamic_int'
+    ns   := ('ns', required, dyn, populate_defaults, validator, entries[, default])
+                                                                              dyn: 'static' | 'dynamic' | 'dynamic_int'
                                                                               entries: tuple of (name, port | ns)
+                                                                              default (of the namespace itself): as for a
+                                                                              port, the value a mapping as tuple of pairs
     validator: None | 'neg' (ports: rejects the value -1) | 'nsbad' (namespaces: rejects a mapping that has the key
     ``bad`` ... see ``ns_validator``)
 
@@ -50,6 +53,16 @@ def check_type(value: Any, type_name: Optional[str]) -> bool:
     return t is None or isinstance(value, t)
 
 
+def ns_default(e: tuple) -> Any:
+    return e[6] if len(e) > 6 else NODEFAULT
+
+
+def pairs_to_dict(value: Any) -> Any:
+    if isinstance(value, tuple):
+        return {k: pairs_to_dict(v) for k, v in value}
+    return value
+
+
 def parse(ns: tuple, given: Dict[str, Any]) -> Dict[str, Any]:
     """Complete ``given`` with the declared defaults."""
     out = dict(given)
@@ -64,7 +77,9 @@ def parse(ns: tuple, given: Dict[str, Any]) -> Dict[str, Any]:
         else:
             if not e[3]:  # populate_defaults is False and nothing was supplied
                 continue
-            if e[5]:  # a namespace with ports is considered recursively
+            if ns_default(e) != NODEFAULT:  # the namespace's own default, itself completed with the defaults inside
+                out[name] = parse(e, pairs_to_dict(ns_default(e)[1]))
+            elif e[5]:  # a namespace with ports is considered recursively
                 out[name] = parse(e, {})
     return out
 
